@@ -1109,6 +1109,21 @@ pub fn gen_case(family: &str, seed: u64, idx: usize) -> Case {
                         ],
                     );
                 }
+                2 => {
+                    // a long history of FAILED evaluations, each of which followed filter-set references
+                    // before it failed, then an expression that is fine on a fresh evaluator: whatever
+                    // is counted or cached per evaluation must not be carried over from failures
+                    let db = small_db();
+                    let f0 = || Expr::FilterSet("FLTR-F0".into());
+                    let failing = Expr::And(
+                        Box::new(Expr::And(Box::new(f0()), Box::new(f0()))),
+                        Box::new(Expr::AsSet("AS-MISSING".into(), Op::None)),
+                    );
+                    let mut items: Vec<Item> = (0..70).map(|i| item(&format!("p{i}"), failing.clone())).collect();
+                    items.push(item("p70", f0()));
+                    items.push(item("p71", Expr::And(Box::new(f0()), Box::new(Expr::AutNum(64500, Op::None)))));
+                    return mk(Runner::Lib, db, items);
+                }
                 _ => {}
             }
             let g = GenOpts {
